@@ -349,6 +349,9 @@ func AddRoute(ws *restful.WebService, rs *RouteSpec, o BuildOpts) {
 // NewService builds the WebService for a SvcSpec (routes in the given order; nil = as specified).
 func NewService(s *SvcSpec, order []int, o BuildOpts, svcIdx int) *restful.WebService {
 	ws := new(restful.WebService)
+	if svcIdx%3 == 1 {
+		ws.Path("/superseded/{x:[0-9]+}") // configuration calls may be repeated: the last root path counts
+	}
 	ws.Path(s.RenderRoot())
 	if o.Dynamic {
 		ws.SetDynamicRoutes(true)
@@ -463,6 +466,11 @@ func HTTPRequest(req *Req, obs *Obs) *http.Request {
 	}
 	if req.HasAcc {
 		h["Accept"] = []string{req.Accept}
+	}
+	for k, vs := range req.More {
+		if len(h[k]) > 0 {
+			h[k] = append(h[k], vs...)
+		}
 	}
 	hr := &http.Request{
 		Method:     req.Method,
